@@ -209,6 +209,7 @@ fn run_text(text: &str) -> Sexp {
 
 fn handler(payload: &Sexp) -> Sexp {
     match payload {
+        Sexp::List(v) if v.first() == Some(&atom("batch")) => tagged("batch", v[1..].iter().map(handler).collect()),
         Sexp::List(v) => match v.as_slice() {
             [Sexp::Atom(k), _, Sexp::List(toks)] if k == "toks" => {
                 match toks.iter().map(sexp_to_token).collect::<Option<Vec<Token>>>() {
@@ -228,20 +229,73 @@ fn handler(payload: &Sexp) -> Sexp {
 struct Gen<'a> {
     ctx: &'a mut Ctx,
     iso: Isolated,
+    /// inputs waiting to be sent to the child as one batch (one pipe round trip per batch)
+    pending: Vec<Sexp>,
 }
 
+const BATCH: usize = 64;
+
 impl Gen<'_> {
+    fn push(&mut self, input: Sexp, big: bool) {
+        if big {
+            // large inputs (deep nesting) go alone, so that an abort is attributed directly
+            self.flush();
+            let iso = &mut self.iso;
+            let payload = input.clone();
+            self.ctx.case(input, || iso.call(&payload));
+            return;
+        }
+        self.pending.push(input);
+        if self.pending.len() >= BATCH {
+            self.flush();
+        }
+    }
+    fn flush(&mut self) {
+        if self.pending.is_empty() {
+            return;
+        }
+        let inputs = std::mem::take(&mut self.pending);
+        // replaying one case: run only that one
+        if let Some(only) = self.ctx.only {
+            for input in inputs {
+                if self.ctx.next_index == only {
+                    let iso = &mut self.iso;
+                    let payload = input.clone();
+                    self.ctx.case(input, || iso.call(&payload));
+                } else {
+                    self.ctx.case(input, || tagged("skipped", vec![]));
+                }
+            }
+            return;
+        }
+        let batch = tagged("batch", inputs.clone());
+        let outs = match self.iso.call(&batch) {
+            Sexp::List(v) if v.len() == inputs.len() + 1 && v[0] == atom("batch") => Some(v[1..].to_vec()),
+            _ => None,
+        };
+        match outs {
+            Some(outs) => {
+                for (input, out) in inputs.into_iter().zip(outs) {
+                    self.ctx.case(input, || out);
+                }
+            }
+            // the batch died (abort / timeout): run its members one by one to find the culprit
+            None => {
+                for input in inputs {
+                    let iso = &mut self.iso;
+                    let payload = input.clone();
+                    self.ctx.case(input, || iso.call(&payload));
+                }
+            }
+        }
+    }
     fn toks(&mut self, stream: &str, tokens: &[Token]) {
         let input = tagged("toks", vec![atom(stream), list(tokens.iter().map(token_sexp).collect())]);
-        let iso = &mut self.iso;
-        let payload = input.clone();
-        self.ctx.case(input, || iso.call(&payload));
+        self.push(input, tokens.len() > 2000);
     }
     fn text(&mut self, stream: &str, text: &str) {
         let input = tagged("text", vec![atom(stream), st(text)]);
-        let iso = &mut self.iso;
-        let payload = input.clone();
-        self.ctx.case(input, || iso.call(&payload));
+        self.push(input, text.len() > 2000);
     }
 }
 
@@ -335,6 +389,35 @@ const CORPUS: &[&str] = &[
     "MOVE ro --1",
     "ADD ro -",
     "DELAY 0 1 2",
+    "DELAY 0 1 theta[0]",
+    "DELAY 0 1 theta",
+    "DELAY 0 1 pi/2",
+    "DELAY 0 q \"a\" 1",
+    "DELAY 0 q \"a\"",
+    "DELAY 0 1 +",
+    "DELAY 0 1 2 (",
+    "DELAY q r s",
+    "DELAY %a %b",
+    "DELAY 0 1 sin",
+    "DELAY 0 1 sin(2)",
+    "CALL f -1 -2.5 -1i 1+2i 1-2.5i -1-2i -1+2i",
+    "CALL f 1+2",
+    "CALL f 1i+2i",
+    "CALL f 1+0i",
+    "CALL f 1+2i+3i",
+    "CALL f 1 + 2i a",
+    "CALL f - 1",
+    "CALL f --1",
+    "CALL f -a",
+    "CALL f 0-0i",
+    "CALL f -0",
+    "CALL f -0.0-0.0i",
+    "CALL f i",
+    "CALL f 1+i",
+    // regression: these three tripped a debug assertion inside `lexical` before c330f06
+    "MOVE ro 1._0000000000000000001",
+    "MOVE ro 45._13920674617104288926664e272",
+    "MOVE ro 0o7._777777777777777777_30",
     "DELAY 0 \"a\" 1.0",
     "DELAY 0 %t",
     "DELAY q",
@@ -542,7 +625,7 @@ fn main() {
 fn run(ctx: &mut Ctx) {
     let quick = ctx.quick();
     let mut rng = ctx.rng(1);
-    let mut g = Gen { ctx, iso: Isolated::new(Duration::from_secs(20)) };
+    let mut g = Gen { ctx, iso: Isolated::new(Duration::from_secs(30)), pending: Vec::new() };
 
     let commands: Vec<Token> = COMMANDS.iter().map(|s| tok(s)).collect();
     let non_commands: Vec<Token> = NON_COMMANDS.iter().map(|s| tok(s)).collect();
@@ -552,19 +635,27 @@ fn run(ctx: &mut Ctx) {
     // (1) corpus: as text (all from_str entry points) and as tokens
     for text in CORPUS {
         g.text("corpus", text);
-        if let Ok(ts) = verif_hooks::lex_tokens(text) {
+        // (the parent lexes corpus texts itself to obtain the token form: guard it, a corpus text may
+        // be the witness of a lexer panic)
+        if let Ok(Ok(ts)) = catch_unwind(|| verif_hooks::lex_tokens(text)) {
             g.toks("corpus", &ts);
         }
     }
 
-    // (4, small part) deep nesting below the stack limit plus the known finding's witnesses
+    // (4) deep nesting: below the stack limit (must parse, or be rejected, like any other input) and
+    // the known finding's witnesses above it (the smallest aborting depth measured on this build with
+    // the default 8 MiB main-thread stack: 12.4k parentheses, 9.5k function calls, 8.4k `1+(`, 3.6k
+    // nested DEFCAL blocks — see docs/C01.md)
     let depths: &[usize] = if quick { &[10, 100, 1000] } else { &[10, 100, 1000, 2000, 3000] };
     for shape in 0..7 {
         for &n in depths {
+            if shape == 5 && n > 1000 {
+                continue;
+            }
             g.text("nest", &nested(shape, n));
         }
     }
-    for (shape, n) in [(0usize, 100_000usize), (1, 100_000), (2, 100_000), (5, 100_000)] {
+    for (shape, n) in [(0usize, 20_000usize), (1, 20_000), (2, 20_000), (3, 20_000), (4, 20_000), (5, 6_000), (6, 20_000)] {
         g.text("nest-deep", &nested(shape, n));
     }
 
@@ -586,7 +677,7 @@ fn run(ctx: &mut Ctx) {
         for_all_sequences(&core, len, &mut |s| g.toks("exh-core", s));
     }
     //   every command (and NONBLOCKING) as head, core alphabet tails: length 3 (quick) / 4 (thorough)
-    let head_tail = if quick { 2 } else { 3 };
+    let head_tail = if quick { 1 } else { 2 };
     let mut heads = commands.clone();
     heads.push(tok("NONBLOCKING"));
     for h in &heads {
@@ -597,7 +688,7 @@ fn run(ctx: &mut Ctx) {
         });
     }
     //   command head + random tails over the full alphabet, length 5..8
-    let n_random_head = if quick { 20_000 } else { 1_500_000 };
+    let n_random_head = if quick { 5_000 } else { 500_000 };
     for _ in 0..n_random_head {
         let len = 4 + rng.below(4) as usize;
         let mut v = vec![rng.pick(&heads).clone()];
@@ -618,7 +709,7 @@ fn run(ctx: &mut Ctx) {
 
     // (2b) grammar-derived valid programs covering every instruction kind, and mutations of them
     let alpha = Alpha::small();
-    let n_valid = if quick { 1_500 } else { 60_000 };
+    let n_valid = if quick { 600 } else { 60_000 };
     let n_mut = if quick { 4 } else { 8 };
     for k in 0..n_valid {
         let count = 1 + rng.below(3);
@@ -646,4 +737,5 @@ fn run(ctx: &mut Ctx) {
             }
         }
     }
+    g.flush();
 }
